@@ -317,7 +317,7 @@ fn gen_small(rng: &mut Rng, ctx: &GenCtx) -> Plan {
     }
 }
 
-/// Entry-limit runs: anyone-can-write (no per-op signature check), replicas driven to 1018..1030 ops by
+/// Entry-limit runs: anyone-can-write (no per-op signature check), replicas driven to 1017..1030 ops by
 /// `add_op` and by merges.
 fn gen_limit(rng: &mut Rng, ctx: &GenCtx) -> Plan {
     let replicas = rng.range(2, 3) as u32;
@@ -334,14 +334,14 @@ fn gen_limit(rng: &mut Rng, ctx: &GenCtx) -> Plan {
     match scenario {
         0 => {
             // reach / cross the limit by op delivery
-            let n = *rng.pick(&[1021u32, 1022, 1023, 1024, 1024, 1025, 1026, 1027]);
+            let n = *rng.pick(&[1022u32, 1023, 1024, 1024, 1025, 1025, 1026, 1028]);
             steps.push(Step::Bulk { at: 0, n, chained, to_mask: all, order });
         }
         1 => {
             // two sides fill up separately, then exchange whole registers
-            let total = *rng.pick(&[1021u32, 1022, 1023, 1024, 1024, 1025, 1026, 1030]);
-            let n1 = rng.range(1, (total - 1).min(1023) as u64) as u32;
-            let n2 = (total - n1).min(1023);
+            let total = *rng.pick(&[1022u32, 1023, 1024, 1024, 1025, 1025, 1026, 1030]);
+            let n1 = if rng.chance(1, 3) { 1024.min(total - 1) } else { rng.range(1, (total - 1).min(1024) as u64) as u32 };
+            let n2 = (total - n1).min(1024);
             steps.push(Step::Partition { mask: 1 });
             steps.push(Step::Bulk { at: 0, n: n1, chained, to_mask: 1, order });
             steps.push(Step::Bulk { at: 1, n: n2, chained: rng.chance(1, 2), to_mask: all & !1, order });
@@ -353,7 +353,7 @@ fn gen_limit(rng: &mut Rng, ctx: &GenCtx) -> Plan {
         }
         _ => {
             // stop just short of the limit and continue with ordinary traffic
-            let n = rng.range(1016, 1022) as u32;
+            let n = rng.range(1017, 1023) as u32;
             steps.push(Step::Bulk { at: 0, n, chained, to_mask: all, order });
         }
     }
@@ -410,15 +410,15 @@ impl Sim for RegistersSim {
             level: "exploration",
             // weights: 6 fault-free, 6 fault, 1 entry-limit run (~0.8 s of BLS signing each) out of every 13
             modes: vec!["nofault", "fault", "nofault", "fault", "nofault", "fault", "limit", "nofault", "fault", "nofault", "fault", "nofault", "fault"],
-            quick_runs: 1_560,
+            quick_runs: 1_300,
             thorough_runs: 52_000,
-            rule: "One run = one seeded plan over 2..5 replicas (each a real SignedRegister + RegisterCrdt; some start without the register) with owner-only / listed-writers / anyone permissions and BLS keys derived from the plan: clients write entries with the real RegisterCrdt::write + RegisterOp::new (authorised, unauthorised signer, two forgeries, two foreign-address forms, oversized, identical content, concurrent siblings, children delivered before parents), ops travel as op broadcast (add_op + apply_op) or inside whole registers (verified_merge, verify + merge, verify_with_address for a replica without the register), adversarial registers (injected op, widened permissions, other base register) arrive only through those verifying entry points; the simulator owns the message queue (mode nofault: FIFO reliable; mode fault: reordering, duplication, loss until heal, partitions; mode limit: anyone-can-write registers driven to 1016..1030 ops by add_op and by merges). After every delivery the replica's op set is compared with the independently kept valid set and acknowledged outcomes, its current values with an independent Merkle-DAG model and with a client-style rebuild; merge laws are checked on sampled triples of recorded reachable states; every run ends with heal + full delivery followed by equality of ops() and read() across replicas and verify() of every final state at its peers. Non-trivial = >=3 operations and (>=1 non-FIFO delivery or >=1 fired fault); distinct = distinct fingerprint of the executed delivery decisions and faults.",
+            rule: "One run = one seeded plan over 2..5 replicas (each a real SignedRegister + RegisterCrdt; some start without the register) with owner-only / listed-writers / anyone permissions and BLS keys derived from the plan: clients write entries with the real RegisterCrdt::write + RegisterOp::new (authorised, unauthorised signer, two forgeries, two foreign-address forms, oversized, identical content, concurrent siblings, children delivered before parents), ops travel as op broadcast (add_op + apply_op) or inside whole registers (verified_merge, verify + merge, verify_with_address for a replica without the register), adversarial registers (injected op, widened permissions, other base register) arrive only through those verifying entry points; the simulator owns the message queue (mode nofault: FIFO reliable; mode fault: reordering, duplication, loss until heal, partitions; mode limit: anyone-can-write registers driven to 1017..1030 ops by add_op and by merges). After every delivery the replica's op set is compared with the independently kept valid set and acknowledged outcomes, its current values with an independent Merkle-DAG model and with a client-style rebuild; merge laws are checked on sampled triples of recorded reachable states; every run ends with heal + full delivery followed by equality of ops() and read() across replicas and verify() of every final state at its peers. Non-trivial = >=3 operations and (>=1 non-FIFO delivery or >=1 fired fault); distinct = distinct fingerprint of the executed delivery decisions and faults.",
             assumptions: vec![
                 "a replica is driven as the client/node code drives it: local write = RegisterCrdt::write + RegisterOp::new + add_op; remote op = add_op then apply_op; remote register = verified_merge, or verify then merge, or (register not held) verify_with_address then store, the CRDT being rebuilt with apply_op as Client::register_get does",
                 "under anyone-can-write permissions any signer and any signature is acceptable (the statement's 'or the register is open to anyone'); address and entry-size rules still apply",
                 "the owner is honest (never signs two different permission sets for one address towards a replica that does not hold the register)",
                 "BLS keys are derived from the plan; no OS randomness is consumed by the code under test in this sim",
-                "the entry-count limit is 1024; at 1023 held ops and above either admission outcome is tolerated, but every state reached must still be accepted by peers and replicas must still converge",
+                "the entry-count limit is 1024 held ops: add_op must admit a valid op while fewer are held and refuse at 1024; a register of up to 1024 valid ops must verify at every peer however it was reached; only a register of more than 1024 ops produced by a merge (and replicas kept apart because more than 1024 distinct valid ops are in play) is the recorded finding",
             ],
         }]
     }
@@ -441,26 +441,28 @@ impl Sim for RegistersSim {
         // smallest histories first, the minimiser keeps one only if the same rule + signature fires
         if plan.steps.iter().any(|s| matches!(s, Step::Bulk { .. })) {
             let canon: Vec<(FinalSync, Vec<Step>)> = vec![
+                // the last admissible entry by add_op alone
                 (FinalSync::Rebroadcast, vec![Step::Bulk { at: 0, n: 1024, chained: false, to_mask: 1, order: 0 }]),
+                // one more than a register may hold, by add_op alone
+                (FinalSync::Rebroadcast, vec![Step::Bulk { at: 0, n: 1025, chained: false, to_mask: 1, order: 0 }]),
+                // a full register and one other op meet in a merge
+                (
+                    FinalSync::AntiEntropy,
+                    vec![
+                        Step::Bulk { at: 0, n: 1024, chained: false, to_mask: 1, order: 0 },
+                        Step::Bulk { at: 1, n: 1, chained: false, to_mask: 2, order: 0 },
+                    ],
+                ),
                 (
                     FinalSync::Rebroadcast,
                     vec![
-                        Step::Partition { mask: 1 },
-                        Step::Bulk { at: 0, n: 1023, chained: false, to_mask: 1, order: 0 },
+                        Step::Bulk { at: 0, n: 1024, chained: false, to_mask: 1, order: 0 },
                         Step::Bulk { at: 1, n: 1, chained: false, to_mask: 2, order: 0 },
-                        Step::Heal,
                         Step::SendState { from: 1, to: 0, via: Via::VerifiedMerge },
                         Step::Deliver { sel: 0 },
                     ],
                 ),
-                (
-                    FinalSync::AntiEntropy,
-                    vec![
-                        Step::Partition { mask: 1 },
-                        Step::Bulk { at: 0, n: 1023, chained: false, to_mask: 1, order: 0 },
-                        Step::Bulk { at: 1, n: 1, chained: false, to_mask: 2, order: 0 },
-                    ],
-                ),
+                // more ops than a register may hold, delivered in different orders
                 (FinalSync::Rebroadcast, vec![Step::Bulk { at: 0, n: 1025, chained: false, to_mask: 3, order: 1 }]),
             ];
             for (fs, steps) in canon {
